@@ -239,7 +239,7 @@ def parseSWCfg (cols : List Col) (codecs flags : String) : Option SWCfg :=
     let padv := match (flags.splitOn "p") with
       | [_, n] => n.toNat?.getD 0
       | _ => 0
-    some { cols := cols, codecs := cds, withStats := flags.contains 's', withExtras := flags.contains 'e', padv := padv, noNullCount := flags.contains 'n', fileOffMode := if flags.contains 'o' then 1 else if flags.contains 'O' then 2 else 0 }
+    some { cols := cols, codecs := cds, withStats := flags.contains 's', withExtras := flags.contains 'e', padv := padv, noNullCount := flags.contains 'n', mrLabels := flags.contains 'L', fileOffMode := if flags.contains 'o' then 1 else if flags.contains 'O' then 2 else 0 }
 
 def parseRowGroups (cols : List Col) (s : String) : Option (List (List Rec)) :=
   if s = "-" then some [] else
